@@ -513,3 +513,5 @@ func parallel(n, workers int, f func(i int)) {
 	close(ch)
 	wg.Wait()
 }
+
+var runOptsDefault = batch.RunOpts{}
